@@ -36,7 +36,9 @@ RULE = ("Base messages are produced in simulation by fixed scenarios: v1/v2c res
         "(sys.monitoring) and must stay below A + 200 x len(datagram) events (A = 400k for single exchanges, 1.2M for walks, "
         ">= 20 x the measured well-formed cost); peak traced memory (tracemalloc, every 4th plan) below 16 MiB + 64 x len; "
         "the outcome is a result or an exception (RecursionError included); afterwards, with the fault gone, the same "
-        "client's next request (the listener's next trap) behaves exactly as in the unmutated run. Non-trivial: the mutated "
+        "client's next request (the listener's next trap) behaves exactly as in the unmutated run, or as in the run in which "
+        "the targeted datagram is lost (a refused datagram conveys nothing - e.g. a corrupted notInTimeWindow Report cannot "
+        "resynchronise the clock). Non-trivial: the mutated "
         "datagram differs from the original and reached the client; distinct = distinct (scenario, mutation).")
 ASSUMPTIONS = [
     "time is decided as counted work (function entries, calls, loop jumps), not seconds; a hang inside one C call would only "
@@ -160,7 +162,7 @@ def big_message(raw: bytes, style: int, n: int) -> bytes:
 
 def apply_mutation(raw: bytes, m: list) -> bytes:
     kind = m[0]
-    if kind == "none":
+    if kind in ("none", "drop"):
         return raw
     if kind == "flip":
         if m[1] >= 8 * len(raw):
@@ -294,6 +296,9 @@ class Env:
             agent.hook_v3 = hook_v3
         w.net.rewriter = rewriter
         agent.hook_scoped = hook_scoped
+        if m[0] == "drop":
+            # reference run: the targeted datagram is lost on the way (it conveys nothing, like one that is refused)
+            w.net.explicit[("a2c", base_idx + self.k)] = [("drop", 0)]
         hits0 = self.indef_hits
         est_len = len(apply_mutation(b"\x00" * 200, m)) if m[0] in ("raw", "rand", "nest") else 300
         if m[0] == "big":
@@ -354,14 +359,15 @@ class Env:
 _BASELINE: Dict[str, Any] = {}
 
 
-def baseline(scenario: str) -> dict:
-    """The unmutated case of a scenario (computed once per process; deterministic)."""
+def baseline(scenario: str, kind: str = "none") -> dict:
+    """The unmutated case of a scenario, or (kind="drop") the case in which the targeted datagram is lost
+    (computed once per process; deterministic)."""
     src = __import__("os").environ.get("VERIF_REPO_SRC", "/repo/src")
-    key = (scenario, src)
+    key = (scenario, src, kind)
     if key not in _BASELINE:
         env = Env(scenario, False)
         try:
-            _BASELINE[key] = env.run_case(["none"])
+            _BASELINE[key] = env.run_case([kind])
         finally:
             env.close()
     return _BASELINE[key]
@@ -477,6 +483,7 @@ def shortcut(plan: dict, out: dict) -> Optional[dict]:
 def execute(plan: dict) -> dict:
     name = plan["scenario"]
     base = baseline(name)
+    lost = baseline(name, "drop") if SCENARIOS[name][5] != "trap" else base
     env = Env(name, bool(plan.get("mem")))
     violation = None
     triggers: List[str] = []
@@ -541,9 +548,10 @@ def execute(plan: dict) -> dict:
                 fail("memory-budget", "%s: peak traced memory %d bytes" % (desc, res["peak"]), res)
                 break
             judged = "disco" not in name or (res["status"] == "exc" and not res.get("went_on"))
-            if judged and res["follow"] != base["follow"]:
-                fail("unusable-after", "%s: the next request on the same client gave %r, in the unmutated run %r "
-                     "(mutated exchange ended with %s)" % (desc, res["follow"], base["follow"], res["exc"] or "a result"), res)
+            if judged and res["follow"] != base["follow"] and res["follow"] != lost["follow"]:
+                fail("unusable-after", "%s: the next request on the same client gave %r; in the unmutated run it gives %r, in "
+                     "the run where that datagram is lost %r (mutated exchange ended with %s)" % (
+                         desc, res["follow"], base["follow"], lost["follow"], res["exc"] or "a result"), res)
                 break
     finally:
         digest = env.w.net.digest()
